@@ -567,6 +567,10 @@ type ReplayFile struct {
 
 func writeReplay(c *Check, tier string, v *Viol, n int) string {
 	dir := filepath.Join(VerifDir(), "replays", c.ID)
+	if os.Getenv("VERIF_NO_EVIDENCE") != "" {
+		// a run against some other tree (seed testing): its counterexamples do not belong to /verif
+		dir = filepath.Join("/dev/shm", "verif-replays", c.ID)
+	}
 	os.MkdirAll(dir, 0o755)
 	p := filepath.Join(dir, fmt.Sprintf("violation-%d.json", n))
 	b, _ := json.MarshalIndent(ReplayFile{Property: c.ID, Tier: tier, Viol: *v,
